@@ -96,15 +96,15 @@ func (c *Ctx) CodecUses(rel string) []CodecUse {
 }
 
 var codecAllow = map[string]string{
-	"k8s.io/apimachinery/pkg/api/resource.Quantity":        "canonical string form, round-trips by design",
-	"k8s.io/apimachinery/pkg/apis/meta/v1.Time":            "RFC3339, second precision (values written by the scheduler are second-granular)",
-	"k8s.io/apimachinery/pkg/apis/meta/v1.Duration":        "duration string",
-	"k8s.io/apimachinery/pkg/apis/meta/v1.MicroTime":       "RFC3339Micro",
-	"k8s.io/apimachinery/pkg/util/intstr.IntOrString":      "int or string",
-	"k8s.io/apimachinery/pkg/apis/meta/v1.LabelSelector":   "plain struct",
-	"k8s.io/apimachinery/pkg/apis/meta/v1.FieldsV1":        "raw json",
-	"k8s.io/apimachinery/pkg/runtime.RawExtension":         "raw json",
-	"k8s.io/apimachinery/pkg/util/sets.String":             "map[string]struct{}",
+	"k8s.io/apimachinery/pkg/api/resource.Quantity":      "canonical string form, round-trips by design",
+	"k8s.io/apimachinery/pkg/apis/meta/v1.Time":          "RFC3339, second precision (values written by the scheduler are second-granular)",
+	"k8s.io/apimachinery/pkg/apis/meta/v1.Duration":      "duration string",
+	"k8s.io/apimachinery/pkg/apis/meta/v1.MicroTime":     "RFC3339Micro",
+	"k8s.io/apimachinery/pkg/util/intstr.IntOrString":    "int or string",
+	"k8s.io/apimachinery/pkg/apis/meta/v1.LabelSelector": "plain struct",
+	"k8s.io/apimachinery/pkg/apis/meta/v1.FieldsV1":      "raw json",
+	"k8s.io/apimachinery/pkg/runtime.RawExtension":       "raw json",
+	"k8s.io/apimachinery/pkg/util/sets.String":           "map[string]struct{}",
 }
 
 // RoundTripProblems lists why values of t may not survive Marshal+Unmarshal unchanged (empty = safe).
